@@ -165,7 +165,7 @@ impl Unifiable {
         }
 
         // Anonymous variable $_ unifies with everything.
-        if Unifiable::Anonymous == *other { Some(Rc::clone(ss)); }
+        if Unifiable::Anonymous == *other { return Some(Rc::clone(ss)); }
 
         match self {
 
